@@ -150,10 +150,9 @@ func main() {
 			if rel != "." {
 				relFile = rel + "/" + names[i]
 			}
-			if rel == "." && skipFiles[names[i]] {
-				continue
-			}
-			r := &rewriter{fset: fset, info: info, file: af, rel: relFile, keepAtomic: keepAtomic[relFile], yields: extraYield}
+			// log.go keeps its own synchronisation (no scheduling points inside the logger); only its os.Exit calls
+			// (Fatalf) are redirected so that the harness can observe them
+			r := &rewriter{fset: fset, info: info, file: af, rel: relFile, keepAtomic: keepAtomic[relFile], yields: extraYield, exitOnly: rel == "." && skipFiles[names[i]]}
 			if r.run() {
 				var buf bytes.Buffer
 				if err := format.Node(&buf, fset, af); err != nil {
@@ -266,6 +265,7 @@ type rewriter struct {
 	file       *ast.File
 	rel        string
 	keepAtomic bool
+	exitOnly   bool // only redirect os.Exit (files that otherwise stay uninstrumented)
 	yields     map[string]bool
 	count      int
 	needVsync  bool
@@ -325,6 +325,7 @@ func (r *rewriter) pkgOf(id *ast.Ident) string {
 }
 
 var selectorMap = map[string][2]string{
+	"os.Exit":                   {"vsync", "Exit"},
 	"time.Sleep":                {"vtime", "Sleep"},
 	"time.NewTicker":            {"vtime", "NewTicker"},
 	"time.Ticker":               {"vtime", "Ticker"},
@@ -339,6 +340,9 @@ var shimPaths = map[string]string{"vtime": "verif/shim/vtime", "vnet": "verif/sh
 func (r *rewriter) run() bool {
 	// a. imports
 	for _, is := range r.file.Imports {
+		if r.exitOnly {
+			break
+		}
 		p, _ := strconv.Unquote(is.Path.Value)
 		var np, name string
 		switch p {
@@ -383,7 +387,7 @@ func (r *rewriter) run() bool {
 		if p == "" {
 			return true
 		}
-		if to, ok := selectorMap[p+"."+se.Sel.Name]; ok {
+		if to, ok := selectorMap[p+"."+se.Sel.Name]; ok && (!r.exitOnly || p == "os") {
 			pkgUses[p]--
 			se.X = ast.NewIdent(to[0])
 			se.Sel = ast.NewIdent(to[1])
@@ -393,7 +397,9 @@ func (r *rewriter) run() bool {
 		return true
 	})
 	// statements
-	r.walkStmtLists(r.file)
+	if !r.exitOnly {
+		r.walkStmtLists(r.file)
+	}
 	// imports that became unused turn into blank imports; add shim imports
 	for _, is := range r.file.Imports {
 		p, _ := strconv.Unquote(is.Path.Value)
